@@ -659,6 +659,7 @@ theorem idx_step {s : St} (o : Op) (hp : BoundedOp o) (h4 : Inv04 s) (h : IdxInv
   | block => exact IdxInv.of_frame (s := s) (s' := { s with h := s.h + 1 }) ⟨rfl, rfl, rfl, rfl⟩ h
   | chanClose c => exact idx_ofM h (fun _ e => IdxInv.of_frame (IFrame.ofD (frame_setChanClosed e)) h)
   | chanOpen c => exact idx_ofM h (fun _ e => IdxInv.of_frame (IFrame.ofD (frame_setChanClosed e)) h)
+  | timeoutOnClose c seq => exact idx_ofM h (fun _ e => by unfold timeoutOnClose at e; split at e <;> cases e; exact h)
 
 theorem idx_run : ∀ (ops : List Op) {s : St}, (∀ o ∈ ops, BoundedOp o) → Inv04 s → IdxInv s → IdxInv (run s ops)
   | [], _, _, _, h => h
